@@ -7,6 +7,7 @@ mod ps;
 mod ps_conc;
 mod rr;
 mod rr_conc;
+mod svcrace;
 mod ws;
 
 use std::time::{Duration, Instant};
@@ -346,6 +347,70 @@ fn ws_campaign(args: &Args) -> Report {
     rep
 }
 
+fn svc_campaign(args: &Args) -> Report {
+    use vkit::campaign::{campaign, Budget};
+    let seed = args.u64("seed", 1);
+    let shard = args.u64("shard", 0);
+    let b = Budget::from_args(args);
+    let ipc = args.str("svc", "local") == "ipc";
+    let mut rep = Report::new();
+    dom::install_log_capture();
+    let d = dom::Domain::new(&format!("c06{}", shard));
+    // sequential compatibility grids first
+    macro_rules! grids {
+        ($S:ty) => {{
+            let mut all = Vec::new();
+            let mut n = 0;
+            for (c, bad) in [svcrace::grid::<$S>(&d.config, shard), svcrace::grid_event::<$S>(&d.config, shard), svcrace::grid_reqres::<$S>(&d.config, shard), svcrace::grid_blackboard::<$S>(&d.config, shard)] {
+                n += c;
+                all.extend(bad);
+            }
+            (n, all)
+        }};
+    }
+    let (ncases, bad) = if ipc { grids!(iceoryx2::service::ipc_threadsafe::Service) } else { grids!(iceoryx2::service::local_threadsafe::Service) };
+    rep.execs += ncases;
+    rep.nontrivial += ncases;
+    rep.count("compatibility_grid_cases", ncases);
+    for (rule, msg) in bad {
+        rep.violation(&rule, format!("C06:grid:{}", rule), msg, Json::obj());
+    }
+    let leftovers = d.residue().into_iter().filter(|f| f.contains("service") || f.contains("dynamic")).collect::<Vec<_>>();
+    if !leftovers.is_empty() {
+        rep.violation("residue_after_last_user", "C06:grid:residue_after_last_user", format!("after the compatibility grids: {:?}", &leftovers[..leftovers.len().min(5)]), Json::obj());
+    }
+    let mut i = 0u64;
+    let mut tag = shard << 32;
+    while i < b.max_progs && !b.expired() {
+        let pi = b.only_prog.unwrap_or(i);
+        let mut rng = Rng::derive(&[seed, shard, pi, 606]);
+        let n = rng.range(2, 4) as usize;
+        let mut roles: Vec<svcrace::Role> = (0..n).map(|_| match rng.below(5) { 0 | 1 => svcrace::Role::Create, 2 | 3 => svcrace::Role::Open, _ => svcrace::Role::OpenOrCreate }).collect();
+        if !roles.iter().any(|r| *r != svcrace::Role::Open) {
+            roles[0] = svcrace::Role::Create;
+        }
+        let pat = [svcrace::Pat::PubSub, svcrace::Pat::Event, svcrace::Pat::ReqRes, svcrace::Pat::Blackboard][(pi % 4) as usize];
+        let cfg = svcrace::RaceCfg { pat, roles };
+        let desc = Json::obj().set("pattern", format!("{:?}", pat)).set("racers", format!("{:?}", cfg.roles)).set("service", if ipc { "ipc" } else { "local" });
+        let replay = format!("c06 --svc {} --seed {} --shard {} --only-prog {}", if ipc { "ipc" } else { "local" }, seed, shard, pi);
+        if i < 1 {
+            rep.sample(desc.clone());
+        }
+        campaign(&mut rep, &mut rng, &b, "C06", &desc, &replay, vkit::fnv_str(&format!("{:?}{:?}", cfg.pat, cfg.roles)), &mut |m| {
+            tag += 1;
+            let res = || d.residue().into_iter().filter(|f| f.contains("service") || f.contains("dynamic")).collect::<Vec<_>>();
+            if ipc { svcrace::execute::<iceoryx2::service::ipc_threadsafe::Service>(&d.config, &cfg, m, tag, &res) } else { svcrace::execute::<iceoryx2::service::local_threadsafe::Service>(&d.config, &cfg, m, tag, &res) }
+        });
+        let _ = dom::drain_bad_logs(&[]);
+        i += 1;
+        if b.only_prog.is_some() {
+            break;
+        }
+    }
+    rep.count("programs", i);
+    rep
+}
+
 fn ps_concurrent(args: &Args, prop: &str) -> Report {
     use vkit::sched::Mode;
     let seed = args.u64("seed", 1);
@@ -395,8 +460,61 @@ fn ps_concurrent(args: &Args, prop: &str) -> Report {
     rep
 }
 
+fn svc_proc_campaign(args: &Args) -> Report {
+    let seed = args.u64("seed", 1);
+    let shard = args.u64("shard", 0);
+    let secs = args.u64("secs", 10);
+    let only = args.kv.get("only-exec").map(|s| s.parse::<u64>().unwrap());
+    let deadline = Instant::now() + Duration::from_secs(secs);
+    let exe = std::env::current_exe().unwrap();
+    let mut rep = Report::new();
+    dom::install_log_capture();
+    let d = dom::Domain::new(&format!("c06p{}", shard));
+    let mut i = 0u64;
+    while Instant::now() < deadline {
+        let ei = only.unwrap_or(i);
+        let mut rng = Rng::derive(&[seed, shard, ei, 6060]);
+        let n = rng.range(2, 4) as usize;
+        let mut roles: Vec<svcrace::Role> = (0..n).map(|_| match rng.below(5) { 0 | 1 => svcrace::Role::Create, 2 => svcrace::Role::Open, _ => svcrace::Role::OpenOrCreate }).collect();
+        if !roles.iter().any(|r| *r != svcrace::Role::Open) {
+            roles[0] = svcrace::Role::Create;
+        }
+        let pat = [svcrace::Pat::PubSub, svcrace::Pat::Event, svcrace::Pat::ReqRes, svcrace::Pat::Blackboard][(ei % 4) as usize];
+        let cfg = svcrace::RaceCfg { pat, roles };
+        let (notes, nontrivial, obs, inconclusive) = svcrace::proc_race(&exe, &d, &cfg, (shard << 32) + ei, vkit::mix(seed, ei));
+        rep.execs += 1;
+        rep.count("process_races", 1);
+        if let Some(why) = inconclusive {
+            rep.inconclusive += 1;
+            rep.notes.push(why);
+        } else {
+            if nontrivial {
+                rep.nontrivial += 1;
+                rep.distinct(vkit::mix(vkit::fnv_str(&format!("{:?}{:?}", cfg.pat, cfg.roles)), obs));
+            }
+            if i < 2 {
+                rep.sample(Json::obj().set("pattern", format!("{:?}", pat)).set("racer_processes", format!("{:?}", cfg.roles)));
+            }
+            for (rule, msg) in notes {
+                rep.violation(&rule, format!("C06:procrace:{}", rule), format!("{:?} {:?}: {}", cfg.pat, cfg.roles, msg), Json::obj().set("replay_args", format!("c06p --seed {} --shard {} --only-exec {}", seed, shard, ei)));
+            }
+        }
+        let _ = dom::drain_bad_logs(&[]);
+        i += 1;
+        if only.is_some() && i >= 10 {
+            break;
+        }
+    }
+    rep
+}
+
 fn main() {
     let args = Args::parse();
+    if args.sub == "c06child" {
+        let a: Vec<String> = std::env::args().skip(2).collect();
+        svcrace::proc_child(&a);
+        return;
+    }
     let rep = match args.sub.as_str() {
         "c01" => ps_campaign(&args, "C01"),
         "c02" => ps_campaign(&args, "C02"),
@@ -407,6 +525,8 @@ fn main() {
         "c11c" => rr_concurrent(&args),
         "c05" => ev_campaign(&args),
         "c20" => ws_campaign(&args),
+        "c06" => svc_campaign(&args),
+        "c06p" => svc_proc_campaign(&args),
         "c17" => if args.str("svc", "local") == "ipc" { drops::campaign::<iceoryx2::service::ipc::Service>(&args, "ipc") } else { drops::campaign::<iceoryx2::service::local::Service>(&args, "local") },
         "c08r" => rr_campaign(&args, "C08"),
         "warmup" => return,
